@@ -10,7 +10,7 @@ TDevAsIs == DevAsIs
 Doc == JsonDeserialize(IOEnv.TRACE_FILE)
 TCases == Doc.cases
 TFFs == Doc.ffs
-TInputs == {[id |-> t, useApps |-> TCases[t].useApps, apps |-> TCases[t].apps, ff |-> TCases[t].inp.ff, F |-> TFFs[TCases[t].inp.ff],
+TInputs == {[id |-> t, hist |-> (IF "hist" \in DOMAIN TCases[t].inp THEN TCases[t].inp.hist ELSE <<>>), useApps |-> TCases[t].useApps, apps |-> TCases[t].apps, ff |-> TCases[t].inp.ff, F |-> TFFs[TCases[t].inp.ff],
              n |-> TCases[t].inp.n, start |-> TCases[t].inp.start, rn |-> TCases[t].inp.rn, fi |-> TCases[t].inp.fi,
              edges |-> TCases[t].inp.edges, sel |-> TCases[t].inp.sel] : t \in 1..Len(TCases)}
 ASSUME TLCSet(1, {})
@@ -64,6 +64,9 @@ FinalVerdict ==
 ExclVerdict ==
   LET o == Obs.final  ox == ToSet(o.inters)  nA == Len(o.atoms)  F == PFinal(inp) IN
     IF err # "" THEN "model-error:" \o err
+    \* with the open deviations on, the observation is compared with the I-layer state itself (exact classification)
+    ELSE IF Dev # NoDev THEN (IF o.nrexcl = molN /\ BondE(ox) = BondE(ToSet(ProjInters)) /\ Explicit(ox) = Explicit(ToSet(ProjInters))
+                               THEN "ok" ELSE "excl/as-is:differs")
     ELSE IF BondE(ox) # BondE(F.inters) THEN "excl:bond-graph"
     ELSE IF ExclEff(o.nrexcl, ox, nA) # ExclP(inp) THEN "excl:effective-set"
     ELSE IF ExclEff(molN, ToSet(ProjInters), nA) # ExclP(inp) THEN "excl/I:effective-set"
